@@ -286,6 +286,8 @@ def c16(tier, seed):
         acts = {
             "A": opn("tr2", "sell", 300, 1000, funds=300 if native else 0),
             "A2": close("tr2"),
+            "Ared": opn("tr2", "buy", 100, 1000, funds=0),
+            "Bred": opn("tr3", "sell", 50, 1000, funds=0),
             "B": opn("tr3", "buy", 200, 1000, funds=200 if native else 0),
             "Lq": liq("liq", "tr1"),
             "Lopen": opn("liq", "buy", 200, 1000, funds=200 if native else 0),
@@ -299,6 +301,10 @@ def c16(tier, seed):
         for _ in range(60 if tier == "quick" else 400):
             n = rng.randint(3, 7)
             seqs.add(tuple(rng.choice(names) for _ in range(n)))
+        # reduce (position from an earlier block), liquidation, then act again -- in one block
+        for tail in (("A2",), ("A",), ("Ared",), ("N", "A2")):
+            seqs.add(("Ared", "Lq") + tail)
+            seqs.add(("B", "N", "Bred", "Lq", "B") + tail)
         for plr in (0, 25):
             for sq in sorted(seqs):
                 if "Lq" not in sq:
